@@ -654,8 +654,9 @@ Proof.
   assert (GE : forall u, gen_of d4 u = gen_of d3 u) by (intros u; unfold gen_of, find_rp; rewrite A4; reflexivity).
   split; [|split].
   - apply pstep_gens; cbn; [congruence|congruence|].
-    intros u. rewrite gen_of_gl. cbn. rewrite <- gen_of_gl, GE. apply (F3 u).
-  - intros u Hu. rewrite gen_of_gl. cbn. rewrite <- gen_of_gl, GE. apply (G3 u).
+    intros u. apply ole_trans with (gen_of d3 u); [exact (F3 u)|apply ole_eq; rewrite <- GE; reflexivity].
+  - intros u Hu. apply olt_ole_trans with (gen_of d3 u); [|apply ole_eq; rewrite <- GE; reflexivity].
+    refine (G3 u _).
     apply first_by_In; [|reflexivity]. rewrite map_map. cbn. assumption.
   - exists (consumers d4). rewrite C3 in F4, G4. cbn in F4, G4. split; [assumption|]. split.
     + intros c Hc. apply G4. apply first_by_In; [|reflexivity]. rewrite map_map. cbn. assumption.
@@ -663,4 +664,555 @@ Proof.
       match goal with |- csub_l _ (filter ?f _) =>
         match f with (fun c => negb (memZ _ ?cs && negb (existsb _ ?al))) =>
           apply (csub_filter (fun z => negb (memZ z cs && negb (existsb (fun a => a_cons a =? z) al)))) end end.
+Qed.
+
+(* ------------------------------------------------------------------ reshaper transaction *)
+Lemma reshape_interim_spec : forall l d d1 gens, reshape_interim d l = Ok (d1, gens) ->
+  pstep d d1 /\ consumers d1 = consumers d.
+Proof.
+  induction l as [|r l IH]; intros d d1 gens H; cbn in H.
+  - inv H. split; [apply pstep_refl|reflexivity].
+  - destruct (ri_invs r).
+    + destruct (reshape_interim d l) as [[d2 g2]|] eqn:E; [|discriminate]. cbn in H. inv H. eapply IH; eauto.
+    + destruct (set_inventory d (ri_rp r) (ri_gen r) _) as [d2|] eqn:E1; [|discriminate]. cbn [bind] in H.
+      destruct (reshape_interim d2 l) as [[d3 g3]|] eqn:E; [|discriminate]. cbn in H. inv H.
+      apply set_inventory_bumped in E1. destruct (IH _ _ _ E) as [P C]. split.
+      * eapply pstep_trans; [eapply bumped_pstep; eauto|assumption].
+      * apply bumped_spec in E1. destruct E1 as (_ & _ & _ & _ & E1 & _). congruence.
+Qed.
+
+Lemma reshape_final_spec : forall l gens d d', reshape_final d l gens = Ok d' ->
+  pstep d d' /\ consumers d' = consumers d.
+Proof.
+  induction l as [|r l IH]; intros gens d d' H; cbn in H.
+  - inv H. split; [apply pstep_refl|reflexivity].
+  - destruct gens as [|[u g] gens]; [inv H; split; [apply pstep_refl|reflexivity]|].
+    destruct (set_inventory d (ri_rp r) g (ri_invs r)) as [d2|] eqn:E1; [|discriminate]. cbn [bind] in H.
+    apply set_inventory_bumped in E1. destruct (IH _ _ _ H) as [P C]. split.
+    + eapply pstep_trans; [eapply bumped_pstep; eauto|assumption].
+    + apply bumped_spec in E1. destruct E1 as (_ & _ & _ & _ & E1 & _). congruence.
+Qed.
+
+Lemma pstep_ole d d' u : pstep d d' -> ole (gen_of d u) (gen_of d' u).
+Proof. intros H. apply (H u). Qed.
+
+Lemma reshape_txn_ok ri : txn_ok (fun d objs => reshape_txn d ri objs).
+Proof.
+  intros d objs d' H. unfold reshape_txn in H.
+  destruct (reshape_interim d ri) as [[d1 gens]|] eqn:E1; cbn [bind] in H; [|discriminate].
+  destruct (set_allocations d1 _) as [d2|] eqn:E2; cbn [bind] in H; [|discriminate].
+  apply reshape_interim_spec in E1. destruct E1 as [P1 C1].
+  apply reshape_final_spec in H. destruct H as [P3 C3].
+  apply set_allocations_ok in E2. destruct E2 as (P2 & G2 & lm & L1 & L2 & L3).
+  split; [|split].
+  - eapply pstep_trans; [exact P1|]. eapply pstep_trans; [exact P2|exact P3].
+  - intros u Hu. eapply ole_olt_trans; [apply pstep_ole; exact P1|].
+    eapply olt_ole_trans; [|apply pstep_ole; exact P3]. apply G2.
+    rewrite map_map. rewrite <- (map_ext q_rp); [exact Hu|]. intros a. destruct (lookup_gen gens (q_rp a)); reflexivity.
+  - exists lm. rewrite C3. rewrite C1 in L1, L2. split; [assumption|]. split; [|assumption].
+    intros c Hc. apply L2.
+    rewrite map_map. rewrite <- (map_ext q_cons); [exact Hc|]. intros a. destruct (lookup_gen gens (q_rp a)); reflexivity.
+Qed.
+
+(* ------------------------------------------------------------------ consumers created / removed by a request *)
+Definition created_in (ks : list cobj) (c : Z) : Prop := exists k, In k ks /\ co_created k = true /\ co_uuid k = c.
+
+Lemma created_memZ ks c : memZ c (map co_uuid (filter co_created ks)) = true <-> created_in ks c.
+Proof.
+  rewrite memZ_In, in_map_iff. split.
+  - intros (k & E & Hk). apply filter_In in Hk. destruct Hk. exists k; auto.
+  - intros (k & A & B & C). exists k. split; auto. apply filter_In; auto.
+Qed.
+
+Lemma delete_created_spec d ks :
+  dsame d (delete_created d ks) /\
+  forall c, cgl (consumers (delete_created d ks)) c =
+            if memZ c (map co_uuid (filter co_created ks)) then None else cgl (consumers d) c.
+Proof.
+  split; [repeat split|]. intros c. unfold delete_created; cbn.
+  pose proof (cgl_filter (fun z => negb (memZ z (map co_uuid (filter co_created ks)))) (consumers d) c) as G.
+  cbv beta in G. rewrite G. destruct (memZ _ _); reflexivity.
+Qed.
+Lemma delete_created_csub d ks : csub_l (consumers d) (consumers (delete_created d ks)).
+Proof.
+  intros c g H. rewrite (proj2 (delete_created_spec d ks)) in H. destruct (memZ _ _); [discriminate|assumption].
+Qed.
+
+Lemma ensure_spec cf v d c d1 o : ensure_consumer cf v d c = (d1, o) ->
+  dsame d d1 /\
+  ( (consumers d1 = consumers d /\ forall k, o = Some k -> co_created k = false /\ co_uuid k = ci_uuid c)
+    \/ (exists k n, o = Some k /\ co_created k = true /\ co_uuid k = ci_uuid c /\
+                    cgl (consumers d) (ci_uuid c) = None /\ consumers d1 = consumers d ++ [n] /\ c_uuid n = ci_uuid c)).
+Proof.
+  unfold ensure_consumer. cbv zeta. unfold find_cons. cbn [consumers set_users set_projects].
+  intros H. destruct (38 <=? v); destruct (find_cons_l (consumers d) (ci_uuid c)) as [k0|] eqn:F.
+  1,3: apply find_cons_l_uuid in F; destruct F as [F _];
+    repeat bmH H; inv H; (split; [repeat split|]); left; (split; [reflexivity|]); intros k E; inv E; cbn; auto.
+  all: assert (N : cgl (consumers d) (ci_uuid c) = None) by (unfold cgl; rewrite F; reflexivity).
+  all: repeat bmH H; inv H; (split; [repeat split|]).
+  all: try (left; split; [reflexivity|intros k E; discriminate]).
+  all: right; eexists; eexists; cbn; repeat split; auto.
+Qed.
+
+Definition Jinv (d0 d : db) (acc : list cobj) : Prop :=
+  dsame d0 d /\
+  (forall c, ~ created_in acc c -> cgl (consumers d) c = cgl (consumers d0) c) /\
+  (forall c, created_in acc c -> cgl (consumers d0) c = None).
+
+Lemma created_dec ks c : created_in ks c \/ ~ created_in ks c.
+Proof.
+  destruct (memZ c (map co_uuid (filter co_created ks))) eqn:M.
+  - left; apply created_memZ; auto.
+  - right; intros H; apply created_memZ in H; congruence.
+Qed.
+
+Lemma Jinv_init d : Jinv d d [].
+Proof. split; [apply dsame_refl|]. split; [reflexivity|]. intros c (k & [] & _). Qed.
+
+Lemma Jinv_step cf v d0 d acc c d1 o : Jinv d0 d acc -> ensure_consumer cf v d c = (d1, o) ->
+  match o with Some k => Jinv d0 d1 (k :: acc) /\ co_uuid k = ci_uuid c | None => Jinv d0 d1 acc end.
+Proof.
+  intros (S & A & B) H. apply ensure_spec in H.
+  destruct H as (S1 & [(C & K)|(k & n & -> & K1 & K2 & N & C & U)]).
+  - assert (J : Jinv d0 d1 acc). { split; [eapply dsame_trans; eauto|]. rewrite C. split; assumption. }
+    destruct o as [k|]; [|exact J]. destruct (K k eq_refl) as [K1 K2]. split; [|assumption].
+    assert (Q : forall x, created_in (k :: acc) x <-> created_in acc x).
+    { intros x. split.
+      - intros (k' & [<-|I] & P1 & P2); [congruence|]. exists k'; auto.
+      - intros (k' & I & P1 & P2). exists k'. split; [right|]; auto. }
+    destruct J as (S' & A' & B'). split; [assumption|]. split; intros x Hx.
+    + apply A'. rewrite <- Q. assumption.
+    + apply B', Q. assumption.
+  - split; [|assumption]. split; [eapply dsame_trans; eauto|].
+    assert (Q : forall x, created_in (k :: acc) x <-> x = ci_uuid c \/ created_in acc x).
+    { intros x. split.
+      - intros (k' & [<-|I] & P1 & P2); [left; congruence|]. right. exists k'; auto.
+      - intros [->|(k' & I & P1 & P2)]; [exists k; split; [left|]; auto|]. exists k'. split; [right|]; auto. }
+    split.
+    + intros x Hx. rewrite Q in Hx. rewrite C, cgl_app1.
+      assert (E : (c_uuid n =? x) = false) by (apply Z.eqb_neq; intros X; apply Hx; left; congruence).
+      rewrite E. rewrite <- (A x) by tauto. destruct (cgl (consumers d) x); reflexivity.
+    + intros x Hx. apply Q in Hx. destruct Hx as [->|Hx]; [|apply B; assumption].
+      destruct (created_dec acc (ci_uuid c)) as [Y|Y]; [apply B; assumption|]. rewrite <- (A _ Y). exact N.
+Qed.
+
+Lemma Jinv_rev d0 d acc : Jinv d0 d acc -> Jinv d0 d (rev acc).
+Proof.
+  assert (Q : forall x, created_in (rev acc) x <-> created_in acc x).
+  { intros x. split; intros (k & I & P); exists k; (split; [|assumption]); [apply in_rev|apply in_rev in I]; assumption. }
+  intros (S & A & B). split; [assumption|]. split; intros x Hx.
+  - apply A. rewrite <- Q. assumption.
+  - apply B, Q. assumption.
+Qed.
+
+Lemma Jinv_delete d0 d ks : Jinv d0 d ks ->
+  dsame d0 (delete_created d ks) /\ forall c, cgl (consumers (delete_created d ks)) c = cgl (consumers d0) c.
+Proof.
+  intros (S & A & B). destruct (delete_created_spec d ks) as [S' E]. split; [eapply dsame_trans; eauto|].
+  intros c. rewrite E. destruct (memZ _ _) eqn:M.
+  - apply created_memZ in M. symmetry. apply B. assumption.
+  - apply A. intros Y. apply created_memZ in Y. congruence.
+Qed.
+
+Lemma Jinv_pres d0 d ks c g : Jinv d0 d ks -> cgl (consumers d0) c = Some g -> cgl (consumers d) c = Some g.
+Proof.
+  intros (S & A & B) H. destruct (created_dec ks c) as [Y|Y]; [rewrite (B c Y) in H; discriminate|].
+  rewrite (A c Y). assumption.
+Qed.
+
+Lemma inspect_spec cf v : forall l d0 d acc d1 o, Jinv d0 d acc -> inspect_consumers cf v d acc l = (d1, o) ->
+  match o with
+  | None => dsame d0 d1 /\ forall c, cgl (consumers d1) c = cgl (consumers d0) c
+  | Some ks => Jinv d0 d1 ks /\ exists ks', ks = rev acc ++ ks' /\ Forall2 (fun k c => co_uuid k = ci_uuid c) ks' l
+  end.
+Proof.
+  induction l as [|c l IH]; intros d0 d acc d1 o J H; cbn in H.
+  - inv H. split; [apply Jinv_rev; assumption|]. exists []. split; [symmetry; apply app_nil_r|constructor].
+  - destruct (ensure_consumer cf v d c) as [d2 [k|]] eqn:E.
+    + pose proof (Jinv_step _ _ _ _ _ _ _ _ J E) as [J' U]. specialize (IH _ _ _ _ _ J' H).
+      destruct o as [ks|]; [|assumption]. destruct IH as (J2 & ks' & -> & F). split; [assumption|].
+      exists (k :: ks'). split; [cbn; rewrite <- app_assoc; reflexivity|]. constructor; assumption.
+    + inv H. pose proof (Jinv_step _ _ _ _ _ _ _ _ J E) as J'. cbn in J'. apply Jinv_delete. assumption.
+Qed.
+
+Lemma update_consumer_spec d k :
+  dsame d (update_consumer d k) /\ forall c, cgl (consumers (update_consumer d k)) c = cgl (consumers d) c.
+Proof.
+  unfold update_consumer. destruct (_ || _); [|split; [apply dsame_refl|reflexivity]].
+  split; [repeat split|]. intros c. unfold consumer_update; cbn. apply cgl_map.
+  - intros r. destruct ((c_uuid r =? co_uuid k) && (c_gen r =? co_gen k)) eqn:E; [|reflexivity].
+    apply andb_true_iff in E. destruct E as [E _]. zb. cbn. congruence.
+  - intros r. destruct ((c_uuid r =? co_uuid k) && (c_gen r =? co_gen k)); reflexivity.
+Qed.
+Lemma fold_update_spec : forall ks d,
+  dsame d (fold_left update_consumer ks d) /\ forall c, cgl (consumers (fold_left update_consumer ks d)) c = cgl (consumers d) c.
+Proof.
+  induction ks as [|k ks IH]; intros d; cbn; [split; [apply dsame_refl|reflexivity]|].
+  destruct (IH (update_consumer d k)) as [S E]. destruct (update_consumer_spec d k) as [S' E'].
+  split; [eapply dsame_trans; eauto|]. intros c. rewrite E. apply E'.
+Qed.
+
+(* ------------------------------------------------------------------ the allocation objects of a request *)
+Lemma new_allocs_In d k : forall l objs a, new_allocs d k l = Some objs -> In a l -> ai_res a <> [] ->
+  exists q, In q objs /\ q_rp q = ai_rp a /\ q_cons q = co_uuid k.
+Proof.
+  induction l as [|a0 l IH]; intros objs a H Hin Hne; [destruct Hin|]. cbn in H.
+  destruct (find_rp d (ai_rp a0)) as [r|]; [|discriminate].
+  destruct (new_allocs d k l) as [rest|] eqn:E; [|discriminate]. injection H as <-.
+  destruct Hin as [->|Hin].
+  - destruct (ai_res a) as [|x xs]; [congruence|]. eexists. split; [apply in_or_app; left; cbn; left; reflexivity|]. cbn. auto.
+  - destruct (IH _ _ eq_refl Hin Hne) as (q & Q1 & Q2). exists q. split; [apply in_or_app; right; assumption|assumption].
+Qed.
+
+Definition res_nonempty (l : list cons_in) : Prop :=
+  forall ci a, In ci l -> In a (ci_allocs ci) -> ai_res a <> [].
+
+Lemma alloc_list_placed d : forall ks l objs u rc amt,
+  Forall2 (fun k c => co_uuid k = ci_uuid c) ks l -> alloc_list d ks l = Some objs ->
+  placed_in l u rc amt -> In u (map q_rp objs).
+Proof.
+  intros ks l objs u rc amt F. revert objs. induction F as [|k ci ks l U F IH]; intros objs H (c & a & Hc & Ha & Hu & Hr).
+  - destruct Hc.
+  - cbn in H. destruct (alloc_objs d k (ci_allocs ci)) as [o1|] eqn:E1; [|discriminate].
+    destruct (alloc_list d ks l) as [o2|] eqn:E2; [|discriminate]. injection H as <-.
+    rewrite map_app. apply in_or_app. destruct Hc as [->|Hc].
+    + left. assert (E : new_allocs d k (ci_allocs c) = Some o1).
+      { unfold alloc_objs in E1. destruct (ci_allocs c); [destruct Ha|exact E1]. }
+      destruct (new_allocs_In _ _ _ _ _ E Ha) as (q & Q1 & Q2 & _).
+      { intros N. rewrite N in Hr. destruct Hr. }
+      apply in_map_iff. exists q. split; [congruence|assumption].
+    + right. apply (IH _ eq_refl). exists c, a. auto.
+Qed.
+
+Lemma alloc_list_named d : forall ks l objs c,
+  Forall2 (fun k c => co_uuid k = ci_uuid c) ks l -> alloc_list d ks l = Some objs ->
+  In c (map ci_uuid l) -> res_nonempty l -> (exists q, In q (wipe_list d c) /\ q_cons q = c) ->
+  In c (map q_cons objs).
+Proof.
+  intros ks l objs c F. revert objs. induction F as [|k ci ks l U F IH]; intros objs H Hc Hne Hw.
+  - destruct Hc.
+  - cbn in H. destruct (alloc_objs d k (ci_allocs ci)) as [o1|] eqn:E1; [|discriminate].
+    destruct (alloc_list d ks l) as [o2|] eqn:E2; [|discriminate]. injection H as <-.
+    rewrite map_app. apply in_or_app. destruct Hc as [Hc|Hc].
+    + left. unfold alloc_objs in E1. destruct (ci_allocs ci) as [|a0 al] eqn:EA.
+      * injection E1 as <-. destruct Hw as (q & Q1 & Q2). apply in_map_iff. exists q. split; [assumption|].
+        rewrite U, Hc. assumption.
+      * destruct (new_allocs_In _ _ _ _ a0 E1 (or_introl eq_refl)) as (q & Q1 & _ & Q2).
+        { apply (Hne ci); [left; reflexivity|rewrite EA; left; reflexivity]. }
+        apply in_map_iff. exists q. split; [congruence|assumption].
+    + right. apply (IH _ eq_refl Hc); [|assumption]. intros ci' a Hi. apply Hne. right. assumption.
+Qed.
+
+Lemma wipe_nonempty d c :
+  (exists k, find_cons d c = Some k) ->
+  (exists a, In a (allocs d) /\ a_cons a = c /\ exists r, find_rp d (a_rp a) = Some r) ->
+  exists q, In q (wipe_list d c) /\ q_cons q = c.
+Proof.
+  intros (k & K) (a & A1 & A2 & r & A3). unfold wipe_list. rewrite K.
+  eexists. split.
+  - apply in_flat_map. exists a. split; [assumption|]. rewrite A2, Z.eqb_refl, A3. left. reflexivity.
+  - reflexivity.
+Qed.
+
+(* ------------------------------------------------------------------ the common shape of the three allocation handlers *)
+Definition alloc_core (cf : cfg) (v : Z) (d : db) (l : list cons_in)
+           (txn : db -> list areq -> result db) (errf : exn -> resp) : db * resp :=
+  match inspect_consumers cf v d [] l with
+  | (d1, None) => (d1, err 409 C_CONCURRENT)
+  | (d1, Some ks) =>
+      match alloc_list d1 ks l with
+      | None => (delete_created d1 ks, err 400 C_DEFAULT)
+      | Some objs =>
+          match txn (fold_left update_consumer ks d1) objs with
+          | Ok d2 => (delete_created d2 (empty_created ks l), ok 204)
+          | Err e => (delete_created d1 ks, errf e)
+          end
+      end
+  end.
+
+Lemma delete_created_nil d : delete_created d [] = d.
+Proof.
+  destruct d. unfold delete_created, set_consumers; cbn. f_equal. apply filter_all. reflexivity.
+Qed.
+
+Lemma h_alloc_put_core cf d v c : h_alloc_put cf d v c = alloc_core cf v d [c] set_allocations alloc_err.
+Proof.
+  unfold h_alloc_put, alloc_core. cbn [inspect_consumers].
+  destruct (ensure_consumer cf v d c) as [d1 [k|]]; cbn.
+  - destruct (alloc_objs d1 k (ci_allocs c)) as [objs|]; [|reflexivity]. rewrite app_nil_r. reflexivity.
+  - rewrite delete_created_nil. reflexivity.
+Qed.
+
+Lemma core_main cf v d l txn errf d' rs :
+  txn_ok txn -> (forall e, is_error (errf e)) -> alloc_core cf v d l txn errf = (d', rs) ->
+  (is_error rs /\ dsame d d' /\ forall c, cgl (consumers d') c = cgl (consumers d) c) \/
+  (rs = ok 204 /\ pstep d d' /\
+   (forall u rc amt, placed_in l u rc amt -> olt (gen_of d u) (gen_of d' u)) /\
+   (forall c g g', cgl (consumers d) c = Some g -> cgl (consumers d') c = Some g' ->
+      g <= g' /\ (In c (map ci_uuid l) -> res_nonempty l -> ConsIff d -> RI d -> g < g'))).
+Proof.
+  intros OK ERR H. unfold alloc_core in H.
+  destruct (inspect_consumers cf v d [] l) as [d1 [ks|]] eqn:EI.
+  2:{ inv H. left. apply (inspect_spec _ _ _ _ _ _ _ _ (Jinv_init d)) in EI. destruct EI as [S E].
+      split; [unfold is_error; cbn; lia|]. split; assumption. }
+  apply (inspect_spec _ _ _ _ _ _ _ _ (Jinv_init d)) in EI. destruct EI as (J & ks' & EK & F). cbn in EK. subst ks'.
+  destruct (alloc_list d1 ks l) as [objs|] eqn:EA.
+  2:{ inv H. left. apply Jinv_delete in J. destruct J as [S E].
+      split; [unfold is_error; cbn; lia|]. split; assumption. }
+  destruct (txn (fold_left update_consumer ks d1) objs) as [d2|e] eqn:ET.
+  2:{ inv H. left. apply Jinv_delete in J. destruct J as [S E]. split; [apply ERR|]. split; assumption. }
+  inv H. right. split; [reflexivity|].
+  destruct (fold_update_spec ks d1) as [SA EA']. set (dA := fold_left update_consumer ks d1) in *.
+  destruct (OK _ _ _ ET) as (P & G & lm & L1 & L2 & L3).
+  destruct (delete_created_spec d2 (empty_created ks l)) as [SD _].
+  pose proof (delete_created_csub d2 (empty_created ks l)) as CD.
+  set (d' := delete_created d2 (empty_created ks l)) in *.
+  destruct J as (S1 & JA & JB).
+  assert (GA : forall u, gen_of dA u = gen_of d u).
+  { intros u. rewrite (psame_gen d1 dA u (dsame_psame _ _ SA)). apply psame_gen, dsame_psame. assumption. }
+  assert (GD : forall u, gen_of d' u = gen_of d2 u) by (intros u; apply psame_gen, dsame_psame; assumption).
+  split; [|split].
+  - eapply pstep_trans; [apply psame_pstep, dsame_psame; exact S1|].
+    eapply pstep_trans; [apply psame_pstep, dsame_psame; exact SA|].
+    eapply pstep_trans; [exact P|]. apply psame_pstep, dsame_psame; exact SD.
+  - intros u rc amt PL. rewrite <- GA, GD. apply G. eapply alloc_list_placed; eauto.
+  - intros c g g' Hg Hg'.
+    assert (H1 : cgl (consumers dA) c = Some g).
+    { rewrite EA'. apply (Jinv_pres d d1 ks); [|exact Hg]. split; [exact S1|]. split; assumption. }
+    destruct (L1 c g H1) as (g1 & E1 & LE). apply CD in Hg'. apply L3 in Hg'. rewrite Hg' in E1. injection E1 as <-.
+    split; [assumption|]. intros Hc Hne CI RId.
+    assert (Hin : In c (map q_cons objs)).
+    { eapply alloc_list_named; eauto. destruct S1 as (R1 & _ & R3 & _).
+      apply wipe_nonempty.
+      - unfold find_cons. rewrite EA' in H1. unfold cgl in H1. destruct (find_cons_l (consumers d1) c); [eauto|discriminate].
+      - unfold cgl in Hg. destruct (find_cons_l (consumers d) c) as [k0|] eqn:FK; [|discriminate].
+        apply find_cons_l_uuid in FK. destruct FK as [FK1 FK2].
+        assert (HC : has_consumer d c) by (exists k0; auto).
+        apply CI in HC. destruct HC as (a & A1 & A2). destruct RId as (RA & _). destruct (RA a A1) as ((r & Hr) & _).
+        exists a. rewrite R3. split; [assumption|]. split; [assumption|]. exists r. unfold find_rp in *. rewrite R1. assumption. }
+    destruct (L2 c Hin g H1) as (g2 & E2 & LT). rewrite Hg' in E2. injection E2 as <-. assumption.
+Qed.
+
+(* ------------------------------------------------------------------ allocation requests *)
+Definition is_alloc_req (r : req) : Prop :=
+  match r with AllocPut _ _ | AllocPost _ _ | Reshape _ _ _ => True | _ => False end.
+
+Lemma alloc_err_is_error e : is_error (alloc_err e).
+Proof. destruct e; unfold is_error; cbn; lia. Qed.
+Lemma reshape_err_is_error e : is_error (reshape_err e).
+Proof. destruct e; unfold is_error; cbn; lia. Qed.
+Lemma reshape_precheck_err d : forall ri r, reshape_precheck d ri = Some r -> is_error r.
+Proof.
+  induction ri as [|x ri IH]; cbn; intros r H; [discriminate|].
+  destruct (find_rp d (ri_rp x)); [|inv H; unfold is_error; cbn; lia].
+  destruct (negb _); [inv H; unfold is_error; cbn; lia|auto].
+Qed.
+
+Lemma alloc_req_core cf d r d' rs : is_alloc_req r -> step cf d r = (d', rs) ->
+  (d' = d /\ is_error rs) \/
+  exists txn errf, txn_ok txn /\ (forall e, is_error (errf e)) /\
+     alloc_core cf (req_version r) d (req_consumers r) txn errf = (d', rs).
+Proof.
+  destruct r; cbn [is_alloc_req]; try contradiction; intros _ H; cbn [step req_version req_consumers] in *.
+  - right. rewrite h_alloc_put_core in H. exists set_allocations, alloc_err.
+    auto using set_allocations_ok, alloc_err_is_error.
+  - change (h_alloc_post cf d v l) with
+      (if v <? 13 then (d, err 404 C_DEFAULT) else alloc_core cf v d l set_allocations alloc_err) in H.
+    destruct (v <? 13).
+    + left. inv H. split; [reflexivity|unfold is_error; cbn; lia].
+    + right. exists set_allocations, alloc_err. auto using set_allocations_ok, alloc_err_is_error.
+  - change (h_reshape cf d v ri al) with
+      (if v <? 30 then (d, err 404 C_DEFAULT) else
+       match reshape_precheck d ri with
+       | Some r => (d, r)
+       | None => alloc_core cf v d al (fun d objs => reshape_txn d ri objs) reshape_err
+       end) in H.
+    destruct (v <? 30).
+    + left. inv H. split; [reflexivity|unfold is_error; cbn; lia].
+    + destruct (reshape_precheck d ri) as [r|] eqn:E.
+      * left. inv H. split; [reflexivity|]. eapply reshape_precheck_err; eassumption.
+      * right. exists (fun d objs => reshape_txn d ri objs), reshape_err.
+        auto using reshape_txn_ok, reshape_err_is_error.
+Qed.
+
+Lemma cons_in_wf_ne c : cons_in_wf c = true -> forall a, In a (ci_allocs c) -> ai_res a <> [].
+Proof.
+  unfold cons_in_wf. intros H a Ha. apply andb_true_iff in H. destruct H as [H _].
+  rewrite forallb_forall in H. specialize (H a Ha). unfold alloc_in_wf in H.
+  apply andb_true_iff in H. destruct H as [_ H]. destruct (ai_res a); [discriminate|congruence].
+Qed.
+Lemma cons_list_wf_ne l : cons_list_wf l = true -> res_nonempty l.
+Proof.
+  unfold cons_list_wf. intros H ci a Hc Ha. apply andb_true_iff in H. destruct H as [H _].
+  rewrite forallb_forall in H. eapply cons_in_wf_ne; eauto.
+Qed.
+Lemma req_wf_ne r : is_alloc_req r -> req_wf r = true -> res_nonempty (req_consumers r).
+Proof.
+  destruct r; cbn; try contradiction; intros _ H.
+  - intros ci a [<-|[]] Ha. eapply cons_in_wf_ne; eauto.
+  - apply cons_list_wf_ne; assumption.
+  - apply andb_true_iff in H. destruct H as [_ H]. apply cons_list_wf_ne; assumption.
+Qed.
+
+Lemma alloc_req_main cf d r d' rs : is_alloc_req r -> step cf d r = (d', rs) ->
+  (is_error rs /\ dsame d d' /\ forall c, cgl (consumers d') c = cgl (consumers d) c) \/
+  (rs = ok 204 /\ pstep d d' /\
+   (forall u rc amt, placed r u rc amt -> olt (gen_of d u) (gen_of d' u)) /\
+   (forall c g g', cgl (consumers d) c = Some g -> cgl (consumers d') c = Some g' ->
+      g <= g' /\ (names_consumer r c -> req_wf r = true -> ConsIff d -> RI d -> g < g'))).
+Proof.
+  intros A H. destruct (alloc_req_core _ _ _ _ _ A H) as [[-> E]|(txn & errf & OK & ERR & C)].
+  - left. split; [assumption|]. split; [apply dsame_refl|reflexivity].
+  - apply core_main in C; [|assumption|assumption]. destruct C as [C|(-> & P & Q & R)]; [left; assumption|].
+    right. split; [reflexivity|]. split; [assumption|]. split.
+    + intros u rc amt PL. apply (Q u rc amt). destruct r; try contradiction; exact PL.
+    + intros c g g' Hg Hg'. destruct (R c g g' Hg Hg') as [R1 R2]. split; [assumption|].
+      intros N W CI RId. apply R2; auto.
+      * destruct r; try contradiction; cbn in *; auto.
+      * apply req_wf_ne; assumption.
+Qed.
+
+(* ------------------------------------------------------------------ every step, provider side *)
+Lemma step_pmono cf d r d' rs : step cf d r = (d', rs) -> pmono d d'.
+Proof.
+  intros H.
+  assert (AL : is_alloc_req r -> pmono d d').
+  { intros A. destruct (alloc_req_main _ _ _ _ _ A H) as [(_ & S & _)|(_ & P & _)].
+    - apply pstep_pmono, psame_pstep, dsame_psame. assumption.
+    - apply pstep_pmono. assumption. }
+  destruct r; cbn [step] in H; try (apply AL; exact I);
+    eauto using h_rp_create_pmono, h_rp_update_pmono, h_rp_delete_pmono, h_inv_set_pmono, h_inv_post_pmono,
+      h_inv_put_pmono, h_inv_delete_pmono, h_inv_delete_all_pmono, h_traits_set_pmono, h_traits_delete_pmono,
+      h_aggs_set_pmono, h_alloc_delete_pmono, h_rc_create_pmono, h_rc_put_pmono, h_rc_rename_pmono,
+      h_rc_delete_pmono, h_trait_put_pmono, h_trait_delete_pmono.
+Qed.
+
+Lemma c10_provider_monotone :
+  forall cf d r d' rs u g g', step cf d r = (d', rs) -> gen_of d u = Some g -> gen_of d' u = Some g' -> g <= g'.
+Proof. intros cf d r d' rs u g g' H Hg Hg'. apply (step_pmono _ _ _ _ _ H u g g' Hg Hg'). Qed.
+
+Lemma c10_inventory_change_increments :
+  forall cf d r d' rs u g g', req_wf r = true -> step cf d r = (d', rs) ->
+    gen_of d u = Some g -> gen_of d' u = Some g' -> invs_of d u <> invs_of d' u -> g < g'.
+Proof. intros cf d r d' rs u g g' _ H Hg Hg'. apply (step_pmono _ _ _ _ _ H u g g' Hg Hg'). Qed.
+
+Lemma c10_trait_change_increments :
+  forall cf d r d' rs u g g', step cf d r = (d', rs) ->
+    gen_of d u = Some g -> gen_of d' u = Some g' -> rp_traits_of d u <> rp_traits_of d' u -> g < g'.
+Proof. intros cf d r d' rs u g g' H Hg Hg'. apply (step_pmono _ _ _ _ _ H u g g' Hg Hg'). Qed.
+
+Lemma c10_alloc_write_increments_provider :
+  forall cf d r d' rs u rc amt g, req_wf r = true -> step cf d r = (d', rs) -> is_success rs ->
+    placed r u rc amt -> gen_of d u = Some g -> exists g', gen_of d' u = Some g' /\ g < g'.
+Proof.
+  intros cf d r d' rs u rc amt g _ H S PL Hg.
+  assert (A : is_alloc_req r) by (destruct r; try contradiction; exact I).
+  destruct (alloc_req_main _ _ _ _ _ A H) as [(E & _)|(_ & _ & Q & _)].
+  - unfold is_error, is_success in *. lia.
+  - apply (Q u rc amt PL g Hg).
+Qed.
+
+Lemma c10_alloc_write_increments_consumer :
+  forall cf d r d' rs c g g', req_wf r = true -> ConsIff d -> RI d ->
+    step cf d r = (d', rs) -> is_success rs -> names_consumer r c ->
+    cgen_of d c = Some g -> cgen_of d' c = Some g' -> g < g'.
+Proof.
+  intros cf d r d' rs c g g' W CI RId H S N Hg Hg'.
+  assert (A : is_alloc_req r) by (destruct r; try contradiction; exact I).
+  destruct (alloc_req_main _ _ _ _ _ A H) as [(E & _)|(_ & _ & _ & R)].
+  - unfold is_error, is_success in *. lia.
+  - apply (R c g g' Hg Hg'); assumption.
+Qed.
+
+(* ------------------------------------------------------------------ the other requests, consumer side and errors *)
+Lemma dcina_csub d cs : csub_l (consumers d) (consumers (delete_consumers_if_no_allocations d cs)).
+Proof.
+  unfold delete_consumers_if_no_allocations. cbn [consumers set_consumers].
+  apply (csub_filter (fun z => negb (memZ z cs && negb (existsb (fun a => a_cons a =? z) (allocs d))))).
+Qed.
+
+Ltac txn_cons := intros H; unfold bind in H; repeat bmH H; inv H; reflexivity.
+Lemma rp_create_cons d u n p d' : rp_create d u n p = Ok d' -> consumers d' = consumers d.
+Proof. unfold rp_create. txn_cons. Qed.
+Lemma rp_update_cons d me n p a d' : rp_update d me n p a = Ok d' -> consumers d' = consumers d.
+Proof. unfold rp_update. cbv zeta. txn_cons. Qed.
+Lemma rp_delete_cons d u d' : rp_delete d u = Ok d' -> consumers d' = consumers d.
+Proof. unfold rp_delete. txn_cons. Qed.
+Lemma rc_create_cons d n d' : rc_create d n = Ok d' -> consumers d' = consumers d.
+Proof. unfold rc_create. txn_cons. Qed.
+Lemma rc_destroy_cons d n d' : rc_destroy d n = Ok d' -> consumers d' = consumers d.
+Proof. unfold rc_destroy. txn_cons. Qed.
+Lemma rc_rename_cons d o n d' : rc_rename d o n = Ok d' -> consumers d' = consumers d.
+Proof. unfold rc_rename. txn_cons. Qed.
+Lemma trait_create_cons d n d' : trait_create d n = Ok d' -> consumers d' = consumers d.
+Proof. unfold trait_create. txn_cons. Qed.
+Lemma trait_destroy_cons d n d' : trait_destroy d n = Ok d' -> consumers d' = consumers d.
+Proof. unfold trait_destroy. txn_cons. Qed.
+Lemma set_aggregates_txn_false_cons d u g w d' : set_aggregates_txn d u g w false = Ok d' -> consumers d' = consumers d.
+Proof. unfold set_aggregates_txn. cbv zeta. txn_cons. Qed.
+Lemma bumped_cons u g d d' : bumped u g d d' -> consumers d' = consumers d.
+Proof. intros H. apply bumped_spec in H. destruct H as (_ & _ & _ & _ & H & _). exact H. Qed.
+Lemma set_traits_txn_cons d u g ts d' : set_traits_txn d u g ts = Ok d' -> consumers d' = consumers d.
+Proof. intros H. apply set_traits_txn_bumped in H. destruct H as [->|H]; [reflexivity|eapply bumped_cons; eassumption]. Qed.
+
+Lemma csub_of_eq (l l' : list consumer) : l' = l -> csub_l l l'.
+Proof. intros ->. apply csub_l_refl. Qed.
+
+Ltac nonalloc_tail H :=
+  repeat bmH H; inv H; (split; [|try (intros; reflexivity); intros E; unfold is_error in E; cbn in E; lia]);
+  try apply csub_l_refl; try refine (dcina_csub (set_allocs _ _) _);
+  try (use_bumped; apply csub_of_eq; eapply bumped_cons; eassumption);
+  apply csub_of_eq;
+  eauto using rp_create_cons, rp_update_cons, rp_delete_cons, rc_create_cons, rc_destroy_cons, rc_rename_cons,
+    trait_create_cons, trait_destroy_cons, set_aggregates_txn_false_cons, set_traits_txn_cons.
+
+Lemma nonalloc_step cf d r d' rs : ~ is_alloc_req r -> step cf d r = (d', rs) ->
+  csub_l (consumers d) (consumers d') /\ (is_error rs -> d' = d).
+Proof.
+  intros NA H. destruct r; cbn [step] in H; try (exfalso; apply NA; exact I).
+  - unfold h_rp_create in H. nonalloc_tail H.
+  - unfold h_rp_update in H. nonalloc_tail H.
+  - unfold h_rp_delete in H. nonalloc_tail H.
+  - unfold h_inv_set in H. nonalloc_tail H.
+  - unfold h_inv_post in H. nonalloc_tail H.
+  - unfold h_inv_put in H. nonalloc_tail H.
+  - unfold h_inv_delete in H. nonalloc_tail H.
+  - unfold h_inv_delete_all in H. nonalloc_tail H.
+  - unfold h_traits_set in H. nonalloc_tail H.
+  - unfold h_traits_delete in H. nonalloc_tail H.
+  - unfold h_aggs_set in H. nonalloc_tail H.
+  - unfold h_alloc_delete in H. nonalloc_tail H.
+  - unfold h_rc_create in H. nonalloc_tail H.
+  - unfold h_rc_put in H. nonalloc_tail H.
+  - unfold h_rc_rename, h_rc_put in H. nonalloc_tail H.
+  - unfold h_rc_delete in H. nonalloc_tail H.
+  - unfold h_trait_put in H. nonalloc_tail H.
+  - unfold h_trait_delete in H. nonalloc_tail H.
+Qed.
+
+Lemma is_alloc_dec r : is_alloc_req r \/ ~ is_alloc_req r.
+Proof. destruct r; cbn; auto. Qed.
+
+Lemma c10_consumer_monotone :
+  forall cf d r d' rs c g g', req_wf r = true -> ConsIff d -> RI d ->
+    step cf d r = (d', rs) -> cgen_of d c = Some g -> cgen_of d' c = Some g' -> g <= g'.
+Proof.
+  intros cf d r d' rs c g g' _ _ _ H Hg Hg'. destruct (is_alloc_dec r) as [A|NA].
+  - destruct (alloc_req_main _ _ _ _ _ A H) as [(_ & _ & E)|(_ & _ & _ & R)].
+    + change (cgl (consumers d') c = Some g') in Hg'. rewrite E in Hg'.
+      change (cgl (consumers d) c = Some g) in Hg. rewrite Hg in Hg'. inv Hg'. lia.
+    + apply (R c g g' Hg Hg').
+  - destruct (nonalloc_step _ _ _ _ _ NA H) as [S _]. apply S in Hg'.
+    change (cgl (consumers d) c = Some g) in Hg. rewrite Hg in Hg'. inv Hg'. lia.
+Qed.
+
+Lemma c10_error_no_change :
+  forall cf d r d' rs, req_wf r = true -> step cf d r = (d', rs) -> is_error rs ->
+    (forall u, gen_of d' u = gen_of d u) /\ (forall c, cgen_of d' c = cgen_of d c).
+Proof.
+  intros cf d r d' rs _ H E. destruct (is_alloc_dec r) as [A|NA].
+  - destruct (alloc_req_main _ _ _ _ _ A H) as [(_ & S & C)|(-> & _)].
+    + split; [intros u; apply psame_gen, dsame_psame; assumption|exact C].
+    + unfold is_error in E. cbn in E. lia.
+  - destruct (nonalloc_step _ _ _ _ _ NA H) as [_ S]. rewrite (S E). split; reflexivity.
 Qed.
